@@ -24,10 +24,11 @@ func c05Alphabet(reduced bool) []amgr.Op {
 		{K: "unlock"}, {K: "lock"}, {K: "unlock_wrong"}, {K: "chpass_priv"}, {K: "restart"},
 		{K: "next_ext", N: 1}, {K: "derive_cache", N: 0}, {K: "lookup_all"}, {K: "import_priv", N: 1},
 		{K: "import_wscript", N: 1}, {K: "new_watch_account"}, {K: "next_ext", A: 1, N: 1}, {K: "invalidate_cache"},
+		{K: "derive", N: 3},
 	}
 	if !reduced {
 		a = append(a, amgr.Op{K: "unlock_old"}, amgr.Op{K: "chpass_pub"}, amgr.Op{K: "extend_ext", N: 2},
-			amgr.Op{K: "derive", N: 3}, amgr.Op{K: "import_script", N: 2}, amgr.Op{K: "new_account"},
+			amgr.Op{K: "derive", N: 0}, amgr.Op{K: "import_script", N: 2}, amgr.Op{K: "new_account"},
 			amgr.Op{K: "to_watching"}, amgr.Op{K: "next_int", N: 1})
 	}
 	return a
